@@ -306,7 +306,9 @@ def run(scn):
         sim.add_agent("sys", mem)
     stall = sum(b for a, b in (m.get("cmd_ready") or [])) + 1
     ratio = max(1, wdw // pdw)
-    cap = 500 + sum(o.get("gap", 0) for o in ops) + len(ops) * (ratio * (stall + 6) + max(m.get("extra") or [0]) + m.get("rl1", 3) + 12)
+    # every native access of a down-converted bus access pays the memory's grant delay and latency (serialised by the converter);
+    # stuck runs are ended by the progress watchdog, so the cap only has to be large enough
+    cap = 500 + sum(o.get("gap", 0) for o in ops) + len(ops) * (ratio * (stall + 8 + max(m.get("extra") or [0]) + m.get("rl1", 3) + m.get("wl1", 1)) + 12)
     need_quiet = 60 + max([b for a, b in (m.get("cmd_ready") or [])] or [0]) + max(m.get("extra") or [0]) + m.get("rl1", 3) + 8 * ratio
     if core:
         cap = 2 * cap + 3000 + 100 * ratio * len(ops)
